@@ -337,11 +337,11 @@ func VerifC18Reconfigure() {
 	vf.Assert(bytes.Equal(got, msg[:len(got)]), "delivered-bytes-are-a-prefix-of-what-was-written")
 	if reconfigured {
 		vf.Assert(err2 == nil && n2 == len(msg)-k && len(got) == len(msg), "connection-accepted-before-a-reconfiguration-delivers-its-response-whole")
-		for _, d := range slept {
-			vf.Assert(d == 0, "new-halt-does-not-apply-to-an-earlier-connection")
-		}
 		for _, a := range l.Shapes.M[regex].Shape.Actions {
 			vf.Assert(a.getCount() == 1, "new-action-counts-not-consumed-by-an-earlier-connection")
+		}
+		for _, d := range slept { // (sleeps are recorded in the engine only)
+			vf.Assert(d == 0, "new-halt-does-not-apply-to-an-earlier-connection")
 		}
 		vf.Reach("reconfigured")
 	} else if closeAt < int64(bodyLen) {
